@@ -299,4 +299,111 @@ theorem applyTx_Live (e : Env) (s : St) (L : List Nat) (i : Nat) (hl : Live e s.
         cases hu
       · rfl
 
+/-- `undoTx` creates no row except the inputs it restores -/
+theorem undoTx_lookup_none (e : Env) (s : St) (t : Tx) (k : Ver)
+    (hk : k ∉ t.ins.map (fun r => (r.tx, r.off))) (h : lookup s.U k = none) :
+    lookup (undoTx e s t).U k = none := by
+  unfold undoTx
+  apply undoOuts_lookup_none
+  simp only
+  rw [restoreU_lookup_other _ _ _ hk, (undoKOut_frame e t t.kout s).1]
+  exact h
+
+/-- a row survives a block unless a new transaction of the block spends it (rows with the id of a block transaction aside) -/
+theorem blockRun_lookup_some (e : Env) (lh : Int) (prop : String) (isPool : Nat → Bool) (txs : List Nat) (s s2 : St)
+    (h : blockRun e lh prop isPool txs s s2) (hid : ∀ i ∈ txs, (e.tx i).id = i) (k : Ver) (u : UItem)
+    (hk : k.1 ∉ txs)
+    (hns : ∀ i ∈ txs, isPool i = false → ∀ r ∈ (e.tx i).ins, (r.tx, r.off) ≠ k)
+    (hsome : lookup s.U k = some u) : lookup s2.U k = some u := by
+  induction txs generalizing s with
+  | nil => simp only [blockRun] at h; subst h; exact hsome
+  | cons i rest ih =>
+    have hid' : ∀ j ∈ rest, (e.tx j).id = j := fun j hj => hid j (List.mem_cons_of_mem _ hj)
+    have hk' : k.1 ∉ rest := fun hm => hk (List.mem_cons_of_mem _ hm)
+    have hns' : ∀ j ∈ rest, isPool j = false → ∀ r ∈ (e.tx j).ins, (r.tx, r.off) ≠ k :=
+      fun j hj => hns j (List.mem_cons_of_mem _ hj)
+    have hne : k.1 ≠ (e.tx i).id := by
+      rw [hid i List.mem_cons_self]; intro e2; exact hk (e2 ▸ List.mem_cons_self)
+    unfold blockRun at h
+    split at h
+    · apply ih _ h hid' hk' hns'
+      rw [payFee_lookup_otherid _ _ _ _ _ _ hne]; exact hsome
+    · rename_i hp
+      have hp' : isPool i = false := by simpa using hp
+      apply ih _ h.2 hid' hk' hns'
+      rw [payFee_lookup_otherid _ _ _ _ _ _ hne, applyTx_lookup_otherid _ _ _ hne]
+      have : k ∉ (e.tx i).ins.map (fun r => (r.tx, r.off)) := by
+        intro hm
+        obtain ⟨r, hr, he⟩ := List.mem_map.mp hm
+        exact hns i List.mem_cons_self hp' r hr he
+      simp only [this, ↓reduceIte]
+      exact hsome
+
+/-- **the transactions of a block keep the live invariant** for the pending transactions that stay pending. The block
+confirms live transactions (`isPool`) and applies new ones; no live transaction cites a new one (fresh ids), and the
+block contains, with each of its transactions, the live transactions it cites (a block is valid on the chain alone). -/
+theorem blockRun_Live (e : Env) (lh : Int) (prop : String) (isPool : Nat → Bool) (txs : List Nat) (s s2 : St)
+    (L : List Nat) (h : blockRun e lh prop isPool txs s s2) (hl : Live e s.U L)
+    (hid : ∀ i ∈ txs, (e.tx i).id = i)
+    (hpool : ∀ i ∈ txs, (isPool i = true ↔ i ∈ L))
+    (hnewcited : ∀ i ∈ txs, isPool i = false → ∀ j ∈ L, ∀ r ∈ (e.tx j).ins, r.tx ≠ i)
+    (hparents : ∀ i ∈ txs, ∀ r ∈ (e.tx i).ins, r.tx ∈ L → r.tx ∈ txs) :
+    Live e s2.U (L.filter (fun x => !txs.contains x)) := by
+  have hmem : ∀ x, x ∈ L.filter (fun x => !txs.contains x) ↔ x ∈ L ∧ x ∉ txs := by
+    intro x; simp only [List.mem_filter, List.contains_eq_mem, Bool.not_eq_eq_eq_not, Bool.not_true,
+      decide_eq_false_iff_not]
+  refine ⟨List.Nodup.sublist List.filter_sublist hl.nodupL, ?_, ?_, ?_, ?_, ?_,
+    List.Pairwise.sublist List.filter_sublist hl.order, ?_, ?_, ?_, ?_, ?_⟩
+  · intro i hi; exact hl.idEq i ((hmem i).mp hi).1
+  · intro i hi; exact hl.nonCoinbase i ((hmem i).mp hi).1
+  · intro i hi; exact hl.insNodup i ((hmem i).mp hi).1
+  · intro i hi; exact hl.noSelf i ((hmem i).mp hi).1
+  · intro i hi; exact hl.balanced i ((hmem i).mp hi).1
+  · -- outs
+    intro i hi idx hm
+    obtain ⟨hiL, hit⟩ := (hmem i).mp hi
+    rcases hl.outs i hiL idx hm with ⟨u, hu, ha⟩ | ⟨j, hj, r, hr, hrt, hro⟩
+    · left
+      refine ⟨u, ?_, ha⟩
+      apply blockRun_lookup_some _ _ _ _ _ _ _ h hid (i, idx) u hit _ hu
+      intro b hb _ r hr he
+      injection he with e1 _
+      exact hit (e1 ▸ hparents b hb r hr (by rw [e1]; exact hiL))
+    · right
+      refine ⟨j, (hmem j).mpr ⟨hj, ?_⟩, r, hr, hrt, hro⟩
+      intro hjt
+      exact hit (hrt ▸ hparents j hjt r hr (by rw [hrt]; exact hiL))
+  · -- insSpent
+    intro i hi r hr
+    obtain ⟨hiL, hit⟩ := (hmem i).mp hi
+    apply blockRun_lookup_none _ _ _ _ _ _ _ h hid (r.tx, r.off) _ (hl.insSpent i hiL r hr)
+    intro hm
+    simp only at hm ⊢
+    have hp : isPool r.tx = true := by
+      cases hpp : isPool r.tx
+      · exact absurd rfl (hnewcited r.tx hm hpp i hiL r hr)
+      · rfl
+    exact ⟨hp, feeSlot_matSlot _ _ (hl.cites i hiL r hr ((hpool r.tx hm).mp hp)).1⟩
+  · intro i hi j hj hij
+    exact hl.disjoint i ((hmem i).mp hi).1 j ((hmem j).mp hj).1 hij
+  · intro j hj r hr hrL
+    exact hl.cites j ((hmem j).mp hj).1 r hr ((hmem r.tx).mp hrL).1
+  · -- rows
+    intro i hi idx u hu
+    obtain ⟨hiL, hit⟩ := (hmem i).mp hi
+    cases hlk : lookup s.U (i, idx) with
+    | none =>
+      have := blockRun_lookup_none _ _ _ _ _ _ _ h hid (i, idx) (fun hm => absurd hm hit) hlk
+      rw [this] at hu; cases hu
+    | some u' => exact hl.rows i hiL idx u' hlk
+
+/-- the fee slots of a live transaction are free -/
+theorem Live.feeFree {e : Env} {U : List (Ver × UItem)} {L : List Nat} (hl : Live e U L) (i : Nat) (hi : i ∈ L)
+    (idx : Nat) (hf : feeSlot (e.tx i) idx = true) : lookup U (i, idx) = none := by
+  cases hlk : lookup U (i, idx) with
+  | none => rfl
+  | some u =>
+    have := feeSlot_matSlot _ _ (hl.rows i hi idx u hlk)
+    rw [this] at hf; cases hf
+
 end XV.Chain
